@@ -34,12 +34,19 @@ func newSolver(log io.Writer) *solver {
 	// The second and third exist for the cross-solver diff of tools/cross_solver.sh: a whole check is
 	// repeated under another solver and paths / obligations / verdicts must be identical.
 	which := os.Getenv("SYMGO_SOLVER")
-	cmd := exec.Command("z3", "-in", "-smt2")
+	// every query has a time limit (SYMGO_QUERY_MS, default 300 s): a query the solver cannot decide in
+	// time is answered "unknown", which ends the path as unsupported and makes the run inconclusive -
+	// instead of blocking the worker until the whole check is killed from outside
+	ms := os.Getenv("SYMGO_QUERY_MS")
+	if ms == "" {
+		ms = "300000"
+	}
+	cmd := exec.Command("z3", "-in", "-smt2", "-t:"+ms)
 	switch which {
 	case "z3-new":
-		cmd = exec.Command("z3-new", "-in", "-smt2")
+		cmd = exec.Command("z3-new", "-in", "-smt2", "-t:"+ms)
 	case "cvc5":
-		cmd = exec.Command("cvc5", "--incremental", "--produce-models", "--lang", "smt2")
+		cmd = exec.Command("cvc5", "--incremental", "--produce-models", "--lang", "smt2", "--tlimit-per="+ms)
 	}
 	in, _ := cmd.StdinPipe()
 	outp, _ := cmd.StdoutPipe()
@@ -207,9 +214,13 @@ func (s *solver) runOneShot(extra string) (string, string) {
 	if alt := os.Getenv("SYMGO_SOLVER"); alt != "" {
 		bin = alt
 	}
-	args := []string{f.Name()}
+	ms := os.Getenv("SYMGO_QUERY_MS")
+	if ms == "" {
+		ms = "300000"
+	}
+	args := []string{"-t:" + ms, f.Name()}
 	if bin == "cvc5" {
-		args = []string{"--produce-models", f.Name()}
+		args = []string{"--produce-models", "--tlimit=" + ms, f.Name()}
 	}
 	out, _ := exec.Command(bin, args...).CombinedOutput()
 	txt := string(out)
